@@ -1191,8 +1191,9 @@ func baseCfg(profile string) Cfg {
 		c.ForForm = [5]int{5, 3, 3, 0, 3}
 		c.PlainPct = 50
 	case "bystander":
-		c.W[SFuncLit], c.W[SExpr], c.W[SDecl], c.W[SAssign] = 9, 6, 9, 9
-		c.Closures, c.GenLits = true, true
+		c.W[SFuncLit], c.W[SExpr], c.W[SDecl], c.W[SAssign], c.W[SRange] = 9, 6, 9, 9, 5
+		c.Closures, c.GenLits, c.Ranges = true, true, true
+		c.Quar["A6"] = true
 		c.PlainPct = 60
 	case "all":
 		c.W[SFuncLit], c.W[SYieldFrom], c.W[SExpr], c.W[SRange] = 5, 5, 3, 5
